@@ -200,7 +200,11 @@ def run_site(chk: Check, sc: Scratch, idx: int, nhostile: int) -> None:
                         out.append(validate.normalize_ts(r.data))
                         sample = {"class": cls, "world": world, "handlers": hl_name, "request": data[:200], "decoded_selector": dsel[:120],
                                   "reply": r.data[:160], "log": r.log[:2]}
-                        bad = audit.classify_outside(evs, root, allowed, allowed_exact=helper_list + ["/bin/sh", "/usr/bin/sh", "/bin/dash"])
+                        probes: list = []
+                        bad = audit.classify_outside(evs, root, allowed, allowed_exact=helper_list + ["/bin/sh", "/usr/bin/sh", "/bin/dash"],
+                                                     probes=probes)
+                        if probes:
+                            chk.count("metadata_probes_outside_root_not_a_verdict", len(probes))
                         bad = [e for e in bad if not (e.name == "subprocess.Popen" and e.detail and e.detail.get("argv", [""])[0] in helper_list)]
                         if bad:
                             e0 = bad[0]
@@ -361,9 +365,12 @@ def strace_leg(chk: Check, sc: Scratch, nhostile: int) -> None:
         for pth in paths:
             if not pth:
                 continue
-            full = pth if pth.startswith("/") else os.path.normpath(os.path.join(cwd, pth))
+            full = os.path.normpath(pth if pth.startswith("/") else os.path.join(cwd, pth))
             counted += 1
             if audit.under(full, root) or any(audit.under(full, a) for a in allowed) or full in helper_list:
+                continue
+            if e.name in ("stat", "lstat", "newfstatat", "statx", "fstatat64", "access", "faccessat", "faccessat2", "readlink", "readlinkat"):
+                chk.count("syscall_metadata_probes_outside_root_not_a_verdict")
                 continue
             chk.witness("C01/syscall-outside-root:%s:%s" % (e.name, "working-directory" if audit.under(full, cwd) else "elsewhere"),
                         {"event": e.brief()[:400], "resolved": full, "cwd": cwd, "root": root})
